@@ -1,12 +1,13 @@
-\* thorough tier, concurrency core: 4 threads x 2 rounds, no creation failure
+\* thorough tier: 4 threads x 1 round per phase x 2 phases, creation may fail
+\* (4 threads x 2 rounds, MayFail = FALSE: 20 457 759 distinct states, depth 78, no error -- checked once by hand, 19 min, too slow for the tier)
 SPECIFICATION Spec
 CONSTANTS
     Threads = {t1, t2, t3, t4}
-    MaxRounds = 2
+    MaxRounds = 1
     MaxChunks = 1
-    MaxPoolOps = 0
+    MaxPoolOps = 1
     CreateUnderLock = TRUE
-    MayFail = FALSE
+    MayFail = TRUE
     MayForget = FALSE
 SYMMETRY Symm
 INVARIANTS TypeOK MutexOK OwnerOK Exclusive IdleDisjoint Conservation ReuseOK ReuseTight DataIntact
